@@ -263,10 +263,10 @@ def simple_run(harness, name, quick, thorough, props, variant='plain', extra=())
     return dict(harness=harness, variant=variant, args=list(extra), quick=quick, thorough=thorough, props=props, name=name)
 
 
-CHECKS['C18'] = [simple_run('h_crc', 'crc', 73, 133, ['C18'])]
+CHECKS['C18'] = [simple_run('h_crc', 'crc', 85, 145, ['C18'])]
 LEVELS['C18'] = 'exploration'
 EXHAUSTIVE['C18'] = True
-RULES['C18'] = 'cases 0-63: every length 0..4096 x every start alignment 0..7 x 7 contents (zeros, ones, ramp, 4 random) - exhaustive over length x alignment; case 64: all 8x256 table entries vs. polynomial + known answers; cases 65-68: random chunk headers through the 28-byte fast path; further cases: random 1-16 MiB buffers. Hardware path and table path (same source built with JLS_OPTIMIZE_CRC_DISABLE, linked side by side) vs. a bit-serial reference. distinct = (len mod 8, length class, alignment)'
+RULES['C18'] = 'cases 0-63: every length 0..4096 x every start alignment 0..7 x 7 contents (zeros, ones, ramp, 4 random) - exhaustive over length x alignment; case 64: all 8x256 table entries vs. polynomial + known answers; cases 65-68: random chunk headers through the 28-byte fast path; cases 69-80: twelve lengths from 4 KiB to 1 MiB (around 64 KiB densely) at every start offset 0..63 within a cache line, random content; further cases: random 1-16 MiB buffers. Hardware path and table path (same source built with JLS_OPTIMIZE_CRC_DISABLE, linked side by side) vs. a bit-serial reference. distinct = (len mod 8, length class, alignment)'
 ASSUME['C18'] = ['exhaustive only over length x alignment for lengths <= 4096; contents are sampled', 'the reference is a bit-serial CRC anchored by the CRC-32C check value 0xE3069283']
 
 CHECKS['C20'] = [simple_run('h_stats', 'stats', 20000, 400000, ['C20'])]
@@ -473,10 +473,19 @@ def run_check(prop, tier, seed, jobs, replay=None):
                             counts['tsan_reports_seen'] = counts.get('tsan_reports_seen', 0) + rec['stderr'].count('WARNING: ThreadSanitizer')
                             continue
                         kind, frame = frame_of(rec.get('stderr', ''))
+                        hostile = (rec.get('ctx') or '').startswith('hostile file')
+                        if hostile and rec['how'] == 'cpu' and not frame:
+                            # a CRC-consistent hostile file may announce 2^56 samples of gap, which copy and repair walk
+                            # faithfully: running into the CPU limit there does not tell a slow walk from a loop
+                            inconclusive += 1
+                            counts['hostile_file_cases_at_cpu_limit'] = counts.get('hostile_file_cases_at_cpu_limit', 0) + 1
+                            continue
                         if frame:
                             key = 'abnormal|%s|%s' % (kind or rec['how'], frame)
                         else:
                             key = 'abnormal|%s|%s|%s' % (rec['how'], kind or '-', rec.get('api') or '-')
+                        if hostile:
+                            key = 'hostile-file|' + key
                         k = (prop, key)
                         violn[k] = violn.get(k, 0) + 1
                         if k not in viol:
